@@ -21,9 +21,12 @@ type dividerProbe struct {
 	count   int
 	faultAt int
 	delta   int64
+	outside bool
+	all     []uint              // configured priorities, highest first
 	seg     map[string]struct{} // distinct calls since the last driver operation
 	order   []string
 	bad     []string // contract violations seen (arguments not sorted/distinct, nil map)
+	noop    bool     // the faulty call had nothing to perturb
 }
 
 func (dp *dividerProbe) divide(priorities []uint, dividend uint, distribution map[uint]uint) {
@@ -47,13 +50,38 @@ func (dp *dividerProbe) divide(priorities []uint, dividend uint, distribution ma
 		dp.order = append(dp.order, key)
 	}
 	fault := idx == dp.faultAt
+	if fault && ((len(priorities) == 0 && !dp.outside) || distribution == nil) {
+		dp.noop = true
+	}
 	delta := dp.delta
 	dp.mu.Unlock()
 
 	dp.base(priorities, dividend, distribution)
 
-	if fault && len(priorities) != 0 && distribution != nil {
-		p0 := priorities[0]
+	if fault && (len(priorities) != 0 || dp.outside) && distribution != nil {
+		p0 := uint(0)
+		if len(priorities) != 0 {
+			p0 = priorities[0]
+		}
+		found := len(priorities) != 0
+		if dp.outside {
+			for _, q := range dp.all {
+				listed := false
+				for _, p := range priorities {
+					if p == q {
+						listed = true
+					}
+				}
+				if !listed {
+					p0 = q
+					found = true
+					break
+				}
+			}
+		}
+		if !found {
+			return
+		}
 		if delta >= 0 {
 			distribution[p0] += uint(delta)
 		} else if distribution[p0] >= uint(-delta) {
@@ -110,14 +138,51 @@ func runPrio2Bubble(sc scenario) result {
 	}
 	pos := 5 + n
 	m := sc.int(pos)
-	probe := &dividerProbe{faultAt: -1, seg: map[string]struct{}{}}
+	next := uint(1)
+	first := 0
+	for ; first < m && sc.int(pos+1+first) == 6; first += 3 {
+		in := inputs[uint(sc.i64(pos+2+first))]
+		if in == nil {
+			continue
+		}
+		v := next
+		next++
+		in.pending.Add(1)
+		go func() {
+			in.ch <- v
+			in.pending.Done()
+		}()
+		synctest.Wait()
+	}
+	sortedAll := append([]uint(nil), order...)
+	sort.Slice(sortedAll, func(i, j int) bool { return sortedAll[i] > sortedAll[j] })
+	probe := &dividerProbe{faultAt: -1, seg: map[string]struct{}{}, all: sortedAll}
 	if kind == 0 {
 		probe.base = divider.Fair
 	} else {
 		probe.base = divider.Rate
 	}
+	swallow := func() {
+		// whatever is still waiting in (or for) the inputs is swallowed so that every helper goroutine ends
+		for _, p := range order {
+			in := inputs[p]
+			if !in.closed {
+				in.closed = true
+				go func() {
+					in.pending.Wait()
+					close(in.ch)
+				}()
+			}
+			go func() {
+				for range in.ch {
+				}
+			}()
+		}
+		synctest.Wait()
+	}
 	dsc, err := priority.New(priority.Opts[uint]{Divider: probe.divide, HandlersQuantity: handlers, Inputs: roInputs})
 	if err != nil {
+		swallow()
 		switch {
 		case errors.Is(err, priority.ErrHandlersQuantityZero):
 			return okInts(-2)
@@ -136,7 +201,6 @@ func runPrio2Bubble(sc scenario) result {
 	out := dsc.Output()
 	res := okInts(0)
 	held := []uint{}
-	next := uint(1)
 	outClosed := false
 	inFlightMax := 0
 	settle := func() {
@@ -165,7 +229,7 @@ func runPrio2Bubble(sc scenario) result {
 		held = append(held[:idx], held[idx+1:]...)
 		go dsc.Release(p)
 	}
-	for i := 0; i < m; i += 3 {
+	for i := first; i < m; i += 3 {
 		code, arg, stl := sc.int(pos+1+i), sc.i64(pos+2+i), sc.int(pos+3+i) != 0
 		tp, tx := uint(0), uint(0)
 		switch code {
@@ -193,10 +257,11 @@ func runPrio2Bubble(sc scenario) result {
 			tp, tx, _ = take()
 		case 4:
 			release(int(arg))
-		case 5:
+		case 5, 7:
 			probe.mu.Lock()
 			probe.faultAt = probe.count
 			probe.delta = arg
+			probe.outside = code == 7
 			probe.mu.Unlock()
 		}
 		synctest.Wait()
@@ -246,7 +311,16 @@ func runPrio2Bubble(sc scenario) result {
 	}
 	res.addI(closedFlag)
 	res.addI(errCode)
-	res.vals = append(res.vals, "extra", fmt.Sprint(inFlightMax), fmt.Sprint(len(probe.bad)))
+	faultHit := 0
+	probe.mu.Lock()
+	if probe.faultAt >= 0 && probe.count > probe.faultAt {
+		faultHit = 1
+		if probe.noop {
+			faultHit = 2
+		}
+	}
+	probe.mu.Unlock()
+	res.vals = append(res.vals, "extra", fmt.Sprint(inFlightMax), fmt.Sprint(len(probe.bad)), fmt.Sprint(faultHit))
 	// cleanup (not compared): let the discipline terminate so that the bubble can end
 	for _, p := range order {
 		in := inputs[p]
@@ -272,14 +346,6 @@ func runPrio2Bubble(sc scenario) result {
 	if !outClosed {
 		res.vals = append(res.vals, "no-termination")
 	}
-	// whatever is still waiting in (or for) the inputs is swallowed so that every helper goroutine ends
-	for _, p := range order {
-		in := inputs[p]
-		go func() {
-			for range in.ch {
-			}
-		}()
-	}
-	synctest.Wait()
+	swallow()
 	return res
 }
